@@ -140,3 +140,109 @@ pub proof fn lemma_hist_record_ok(f: &Fsm, g: &GlobalData, cfg: Seq<u32>, s: u32
         assert(valid_id(f, cfg[j]) && !is_history(f, cfg[j]));
     }
 }
+
+pub proof fn lemma_same_doc_is_desc_all(f1: &Fsm, f2: &Fsm)
+    requires
+        same_doc(f1, f2),
+        wf_tree(f1),
+        wf_tree(f2),
+    ensures
+        forall|a: u32, b: u32| #[trigger] is_desc(f2, a, b) == is_desc(f1, a, b),
+{
+    assert forall|a: u32, b: u32| #[trigger] is_desc(f2, a, b) == is_desc(f1, a, b) by {
+        lemma_same_doc_is_desc(f1, f2, a, b);
+    }
+}
+
+/// clearing isFirstEntry flags keeps the document well-formed
+pub proof fn lemma_same_doc_entry_wf(f1: &Fsm, f2: &Fsm, g: &GlobalData)
+    requires
+        same_doc(f1, f2),
+        entry_wf(f1, g),
+    ensures
+        entry_wf(f2, g),
+{
+    lemma_same_doc_wf_tree(f1, f2);
+    lemma_same_doc_st(f1, f2);
+    lemma_same_doc_is_desc_all(f1, f2);
+    // wf_doc
+    assert forall|t: u32| valid_tr(f2, t) implies (#[trigger] tr(f2, t)).id == t && valid_id(f2, tr(f2, t).source) && all_valid(f2, tr(f2, t).target@) by {
+        assert(tr(f1, t) == tr(f2, t));
+        assert(all_valid(f1, tr(f1, t).target@));
+    }
+    assert forall|s: u32, i: int| valid_id(f2, s) && 0 <= i < st(f2, s).transitions.data@.len() implies valid_tr(f2, #[trigger] st(f2, s).transitions.data@[i]) by {
+        assert(state_same(st(f1, s), st(f2, s)));
+        assert(valid_tr(f1, st(f1, s).transitions.data@[i]));
+    }
+    assert forall|h: u32| valid_id(f2, h) && is_history(f2, h) implies #[trigger] history_ok(f2, h) by {
+        assert(state_same(st(f1, h), st(f2, h)));
+        assert(history_ok(f1, h));
+        assert(default_targets(f1, h) == default_targets(f2, h));
+        assert forall|i: int| 0 <= i < default_targets(f2, h).len() implies !is_history(f2, #[trigger] default_targets(f2, h)[i]) by {
+            let t = default_targets(f1, h)[i];
+            assert(!is_history(f1, t));
+            assert(valid_tr(f1, st(f1, h).transitions.data@[0]));
+            assert(all_valid(f1, tr(f1, st(f1, h).transitions.data@[0]).target@));
+            assert(valid_id(f1, t));
+            assert(state_same(st(f1, t), st(f2, t)));
+        }
+    }
+    assert forall|s: u32, i: int| valid_id(f2, s) && 0 <= i < st(f2, s).history.data@.len() implies valid_id(f2, #[trigger] st(f2, s).history.data@[i]) by {
+        assert(state_same(st(f1, s), st(f2, s)));
+        assert(valid_id(f1, st(f1, s).history.data@[i]));
+    }
+    assert(wf_doc(f2));
+    // wf_hv
+    assert forall|h: u32| hv_has(g, h) implies all_valid(f2, #[trigger] hv_get(g, h)) by {
+        assert(all_valid(f1, hv_get(g, h)));
+    }
+    // entry_wf clauses
+    assert forall|s: u32, i: int| valid_id(f2, s) && 0 <= i < st(f2, s).states@.len() implies !is_history(f2, #[trigger] st(f2, s).states@[i]) by {
+        assert(state_same(st(f1, s), st(f2, s)));
+        let c = st(f1, s).states@[i];
+        assert(!is_history(f1, c));
+        assert(valid_id(f1, c));
+        assert(state_same(st(f1, c), st(f2, c)));
+    }
+    assert forall|s: u32| valid_id(f2, s) && is_compound(f2, s) && st(f2, s).initial != 0 implies #[trigger] initial_ok(f2, s) by {
+        assert(state_same(st(f1, s), st(f2, s)));
+        assert(is_compound(f1, s));
+        assert(initial_ok(f1, s));
+    }
+    assert forall|h: u32| valid_id(f2, h) && is_history(f2, h) implies #[trigger] history_scope_ok(f2, h) by {
+        assert(state_same(st(f1, h), st(f2, h)));
+        assert(history_scope_ok(f1, h));
+        assert(default_targets(f1, h) == default_targets(f2, h));
+    }
+    assert forall|h: u32| hv_has(g, h) implies #[trigger] hv_entry_ok(f2, g, h) by {
+        assert(hv_entry_ok(f1, g, h));
+        assert(state_same(st(f1, h), st(f2, h)));
+        assert forall|i: int| 0 <= i < hv_get(g, h).len() implies !is_history(f2, #[trigger] hv_get(g, h)[i]) && is_desc(f2, hv_get(g, h)[i], parent_of(f2, h)) by {
+            let x = hv_get(g, h)[i];
+            assert(!is_history(f1, x) && is_desc(f1, x, parent_of(f1, h)));
+            assert(all_valid(f1, hv_get(g, h)));
+            assert(valid_id(f1, x));
+            assert(state_same(st(f1, x), st(f2, x)));
+        }
+    }
+    assert forall|s: u32| valid_id(f2, s) && (#[trigger] st(f2, s)).initial != 0 implies valid_tr(f2, st(f2, s).initial) by {
+        assert(state_same(st(f1, s), st(f2, s)));
+    }
+    assert forall|s: u32| valid_id(f2, s) && (#[trigger] st(f2, s)).parent == 0 implies s == f2.pseudo_root by {
+        assert(state_same(st(f1, s), st(f2, s)));
+    }
+    assert forall|s: u32| valid_id(f2, s) && parent_of(f2, s) != 0 implies !is_history(f2, #[trigger] parent_of(f2, s)) by {
+        assert(state_same(st(f1, s), st(f2, s)));
+        assert(!is_history(f1, parent_of(f1, s)));
+        assert(valid_id(f1, parent_of(f1, s)));
+        assert(state_same(st(f1, parent_of(f1, s)), st(f2, parent_of(f1, s))));
+    }
+    assert forall|s: u32, i: int| valid_id(f2, s) && 0 <= i < st(f2, s).history.data@.len() implies is_history(f2, #[trigger] st(f2, s).history.data@[i]) && parent_of(f2, st(f2, s).history.data@[i]) == s by {
+        assert(state_same(st(f1, s), st(f2, s)));
+        let h = st(f1, s).history.data@[i];
+        assert(is_history(f1, h) && parent_of(f1, h) == s);
+        assert(valid_id(f1, h));
+        assert(state_same(st(f1, h), st(f2, h)));
+    }
+    assert(state_same(st(f1, f1.pseudo_root), st(f2, f1.pseudo_root)));
+}
